@@ -3,6 +3,7 @@ package main
 import (
 	"bytes"
 	"fmt"
+	"strconv"
 	"strings"
 
 	"github.com/Eyevinn/mp4ff/bits"
@@ -20,9 +21,9 @@ func init() {
 // history line: "frag <ntracks> <opt> <enc> | <frag> | <frag> ..." ; a <frag> is "<mode> <extras> op op ..."
 // op = "<track>:<dur>:<size>:<flags>:<cto>" ; decode times are contiguous per track, starting at 1000*track.
 type fragOp struct {
-	track                 int
-	dur, size, flags      uint32
-	cto                   int32
+	track            int
+	dur, size, flags uint32
+	cto              int32
 }
 type fragSpec struct {
 	mode   string // full1 | fullmt | lazy | lazyss | itvl
@@ -44,6 +45,9 @@ type history struct {
 	// o = the caller runs TrafBox.OptimizeTfhdTrun itself (as Fragment.Encode does: first traf of every fragment);
 	// every output written must read back the samples added
 	seq string
+	// decode time of the first sample of track 1 (0 = the default 1000; the other tracks start 1000 ticks apart):
+	// late timelines, in particular around 2^32 where the tfdt box changes version
+	t0 uint64
 }
 
 func (h *history) line() string {
@@ -54,6 +58,9 @@ func (h *history) line() string {
 	}
 	if h.seq != "" {
 		hdr += " seq=" + h.seq
+	}
+	if h.t0 != 0 {
+		hdr += fmt.Sprintf(" t0=%d", h.t0)
 	}
 	p = append(p, hdr)
 	for _, f := range h.frags {
@@ -79,6 +86,8 @@ func parseHistory(req string) *history {
 			h.buf = kv[4:]
 		} else if strings.HasPrefix(kv, "seq=") {
 			h.seq = kv[4:]
+		} else if strings.HasPrefix(kv, "t0=") {
+			h.t0, _ = strconv.ParseUint(kv[3:], 10, 64)
 		}
 	}
 	for _, p := range parts[1:] {
@@ -114,10 +123,10 @@ type addedSample struct {
 }
 
 type built struct {
-	init    *mp4.InitSegment
-	seg     *mp4.MediaSegment
-	added   map[int][]addedSample
-	lazy    [][]byte // per fragment: data to write after the fragment (metadata-only modes), else nil
+	init  *mp4.InitSegment
+	seg   *mp4.MediaSegment
+	added map[int][]addedSample
+	lazy  [][]byte // per fragment: data to write after the fragment (metadata-only modes), else nil
 }
 
 // callerBufs: the slices the caller hands to the addition APIs (history.buf). The library is given exactly the values
@@ -215,6 +224,9 @@ func buildHistory(h *history) (*built, error) {
 	cnt := map[int]int{}
 	for t := 1; t <= h.ntracks; t++ {
 		next[t] = uint64(1000 * t)
+		if h.t0 != 0 {
+			next[t] = h.t0 + uint64(1000*(t-1))
+		}
 	}
 	for fi, fs := range h.frags {
 		var frag *mp4.Fragment
@@ -712,6 +724,11 @@ func decorateHistory(c *Ctx, h *history) {
 				}
 			}
 		}
+	}
+	// late timelines: one history in five starts at a boundary of the decode-time representations
+	if r.Intn(5) == 0 {
+		bs := []uint64{1<<32 - 1, 1 << 32, 1<<32 + 1, 1<<32 - 3000, 1<<32 - 1000, 1 << 31, 1<<31 - 1, 1 << 33, 1<<63 - 1<<20, 1<<40 + 7}
+		h.t0 = bs[r.Intn(len(bs))]
 	}
 	n := 2 + r.Intn(4)
 	seq := make([]byte, n)
